@@ -262,6 +262,19 @@ class Folder:
         self.trace = []  # symbolic applications in evaluation order
         self.steps = 0
         self.max_steps = max_steps
+        self.func_stack = []   # repository functions being folded (innermost last): context for resolving helpers / module constants
+        self._modconst = {}
+
+    def _ctx_func(self):
+        from . import flow
+
+        if flow.MODEL is None:
+            return None
+        for fn in reversed(self.func_stack):
+            f = getattr(flow.MODEL, "_func_of_node", {}).get(id(fn))
+            if f is not None:
+                return f
+        return None
 
     # -- expressions -------------------------------------------------------------
     def ev(self, n, env):
@@ -290,6 +303,13 @@ class Folder:
             return TypeTag(n.id)
         if n.id in ("True", "False", "None"):
             return {"True": True, "False": False, "None": None}[n.id]
+        f = self._ctx_func()
+        if f is not None and n.id in f.module.assigns and not self.symbolic:
+            # a module-level constant (lookup table, literal): folded once, on its own
+            key = (f.module.name, n.id)
+            if key not in self._modconst:
+                self._modconst[key] = self.ev(f.module.assigns[n.id], {})
+            return self._modconst[key]
         raise Refuse(f"unbound name {n.id}")
 
     def e_Tuple(self, n, env):
@@ -332,6 +352,14 @@ class Folder:
 
     def e_SetComp(self, n, env):
         return frozenset(self.e_ListComp(n, env))
+
+    def e_DictComp(self, n, env):
+        out = {}
+
+        def emit(e):
+            out[self.ev(n.key, e)] = self.ev(n.value, e)
+        self._comp(n, env, emit)
+        return out
 
     def e_JoinedStr(self, n, env):
         return "<fstring>"
@@ -517,6 +545,20 @@ class Folder:
                 args = [self.ev(a, env) for a in n.args]
                 kw = {k.arg: self.ev(k.value, env) for k in n.keywords if k.arg}
                 return self.call(tgt, args, kw)
+        cf = self._ctx_func()
+        if cf is not None and not self.symbolic:
+            from . import flow
+
+            try:
+                t = flow.MODEL.resolve_call(n, cf)
+            except Exception:
+                t = None
+            if t is not None and hasattr(t, "node") and isinstance(t.node, ast.FunctionDef) and not t.node.decorator_list:
+                args = [self.ev(a, env) for a in n.args]
+                kw = {k.arg: self.ev(k.value, env) for k in n.keywords if k.arg}
+                if isinstance(f, ast.Attribute) and getattr(t, "cls", None) is not None and t.params and t.params[0] in ("self", "cls"):
+                    args = [self.ev(f.value, env)] + args
+                return self.call(t.node, args, kw)
         if self.symbolic:
             args = [self.ev(a, env) for a in n.args if not isinstance(a, ast.Starred)]
             kw = {k.arg: self.ev(k.value, env) for k in n.keywords if k.arg}
@@ -715,10 +757,13 @@ class Folder:
         for nme in names:
             if nme not in env:
                 raise Refuse(f"missing arg {nme}")
+        self.func_stack.append(fnode)
         try:
             self.block(fnode.body, env)
         except _Return as r:
             return r.value
+        finally:
+            self.func_stack.pop()
         return None
 
     def block(self, body, env):
